@@ -31,6 +31,15 @@
 (*           of conditional events): changes NOTHING - no variable is created, no event posted, the devices      *)
 (*           still find "no state yet" when they are first loaded for q (LoadG1/LoadG2 use the configured        *)
 (*           defaults); what is read is what q owns (a variable that does not exist reads as 0)                  *)
+(*   AddBurst(k)  k requests to add a player within ONE instant (k presses of the start button / k calls of       *)
+(*           request_player_add() in one handler / k add-player events, all handled in the same drain of the      *)
+(*           event queue, i.e. before the completion callback of the first request has created its player):       *)
+(*           every request is judged on the game as it is at that instant; the players are created afterwards,    *)
+(*           one after the other, and every one of them is numbered WHEN HE IS CREATED: P[p].num = p, the numbers *)
+(*           of the players are 1..np in the order of joining (NumbersDistinct); everything else (Frame, Restore,  *)
+(*           FreshGame, VarEvent: the owner's number in every player_<var> event) is as for players who joined    *)
+(*           one at a time.  A burst larger than the free slots overshoots max_players in the code as it is       *)
+(*           (known finding C06:AddRace, a matter of C06): such bursts are left out of the model, not judged.     *)
 (*   nops/nadv/ngames/bops  budgets (bops: steps within the current ball or pause between turns)         *)
 (* machine modelled (drivers/c11.py write_machine): gm1 starts on ball_starting (c1 counter goal 3      *)
 (* disable_on_complete, a1 accrual of 2, q1 sequence of 2 reset+disable on complete, shots 1/2 in a     *)
@@ -51,9 +60,11 @@ NoLB  == [x |-> FALSE, v |-> 0, en |-> FALSE, done |-> FALSE]
 NewLB == [x |-> TRUE, v |-> 0, en |-> TRUE, done |-> FALSE]
 NoP   == [ex |-> FALSE, score |-> 0, bonus |-> 0, ball |-> 0, eb |-> 0, c1 |-> NoLB, a1 |-> NoLB, q1 |-> NoLB, c2 |-> NoLB,
           s |-> <<0, 0, 0>>, e |-> <<-1, -1>>, ach |-> "none", tick |-> -1, rs |-> FALSE, xv |-> 0,
-          tv |-> [ini |-> "-", sel |-> "-"]]
+          tv |-> [ini |-> "-", sel |-> "-"], num |-> 0]
 \* configured initial values (player_vars: bonus = 2, ini = "" (a string variable))
 InitP == [NoP EXCEPT !.ex = TRUE, !.bonus = 2, !.tv.ini = "s:"]
+\* the n-th player to join: the configured initial values and his number (player variable "number")
+JoinP(n) == [InitP EXCEPT !.num = n]
 Vol0  == [c3 |-> NoLB, e3 |-> FALSE, trun |-> FALSE, tpause |-> 0, stp |-> FALSE]
 VolFresh == [c3 |-> NewLB, e3 |-> TRUE, trun |-> FALSE, tpause |-> 0, stp |-> FALSE]
 NoBound == [gm1 |-> 0, gm2 |-> 0]
@@ -160,7 +171,7 @@ Via(m, f(_)) == [P EXCEPT ![bound[m]] = f(@)]
 
 NewGame == /\ ph = "idle" /\ ngames < MaxGames /\ ngames' = ngames + 1 /\ bops' = 0
            /\ ph' = "between" /\ np' = 1 /\ cur' = 1 /\ ending' = FALSE
-           /\ P' = [p \in Players |-> IF p = 1 THEN InitP ELSE NoP] /\ bound' = NoBound /\ vol' = Vol0 /\ evs' = {} /\ tevs' = {}
+           /\ P' = [p \in Players |-> IF p = 1 THEN JoinP(1) ELSE NoP] /\ bound' = NoBound /\ vol' = Vol0 /\ evs' = {} /\ tevs' = {}
            /\ act' = [op |-> "newgame"] /\ UNCHANGED <<cfg, nops, nadv>>
 \* a start request for a game mode while no player's turn is running is refused: nothing changes
 ModeReq(m) == /\ "modereq" \in Acts /\ ph \in {"idle", "between"} /\ nops < MaxOps /\ nops' = nops + 1 /\ bops < MaxReq /\ bops' = bops + 1
@@ -180,9 +191,19 @@ TurnStart == /\ ph = "between" /\ ph' = "ball" /\ bops' = 0
 AddPlayer == /\ "addplayer" \in Acts /\ ph = "ball" /\ nops < MaxOps /\ nops' = nops + 1
              /\ LET ok == Me.ball = 1 /\ np < cfg.maxp /\ ~ending IN
                 /\ np' = IF ok THEN np + 1 ELSE np
-                /\ P' = IF ok THEN [P EXCEPT ![np + 1] = InitP] ELSE P
+                /\ P' = IF ok THEN [P EXCEPT ![np + 1] = JoinP(np + 1)] ELSE P
              /\ evs' = {} /\ tevs' = {} /\ act' = [op |-> "addplayer"]
              /\ UNCHANGED <<cfg, ph, cur, bound, vol, ending, nadv, ngames, bops>>
+\* k add requests within one instant: all of them are judged on the game as it is now (no player of the burst exists yet
+\* when the last request is judged), then the players are created one after the other - the i-th of them is the
+\* (np + i)-th player of the game.  Bursts that do not fit into the free slots are not modelled (C06:AddRace)
+AddBurst(k) == /\ "burst" \in Acts /\ ph = "ball" /\ k \in 2..3 /\ nops < MaxOps /\ nops' = nops + 1
+               /\ LET ok == Me.ball = 1 /\ np < cfg.maxp /\ ~ending IN
+                  /\ (ok => np + k <= cfg.maxp)
+                  /\ np' = IF ok THEN np + k ELSE np
+                  /\ P' = IF ok THEN [p \in Players |-> IF p \in (np + 1)..(np + k) THEN JoinP(p) ELSE P[p]] ELSE P
+               /\ evs' = {} /\ tevs' = {} /\ act' = [op |-> "addburst", k |-> k]
+               /\ UNCHANGED <<cfg, ph, cur, bound, vol, ending, nadv, ngames, bops>>
 Score == Op("score") /\ Step([op |-> "score"], SetMe([Me EXCEPT !.score = @ + 100]), bound, vol)
 SetVar(kind) == Op("var") /\ Step([op |-> "var", kind |-> kind],
                                  SetMe([Me EXCEPT !.bonus = IF kind = "set" THEN 5 ELSE @ + 1]), bound, vol)
@@ -293,6 +314,7 @@ Release == /\ vol.stp /\ ph \in {"ball", "ending"}
            /\ UNCHANGED <<cfg, nops, nadv, ngames>>
 Next == \/ NewGame \/ TurnStart \/ AddPlayer \/ Score \/ AwardEB \/ Rotate \/ ModeStart \/ Adv \/ EndGame \/ Release
         \/ \E h \in BOOLEAN : ModeStop(h) \/ BallEnd(h)
+        \/ \E k \in 2..3 : AddBurst(k)
         \/ \E q \in Players, var \in TVars, val \in TVals : SetTV(q, var, val)
         \/ \E m \in {"gm1", "gm2"} : ModeReq(m) \/ \E run \in BOOLEAN : LateReq(m, run)
         \/ \E k \in {"set", "add"} : SetVar(k) \/ \E n \in 1..2, fb \in BOOLEAN : PVar(k, n, fb)
@@ -334,11 +356,18 @@ Restore == [][ BallStarts =>
                                       /\ Live'.c3 = NewLB /\ Live'.e[3])       \* not persisted: as configured
                /\ P'[p].score = old.score /\ P'[p].bonus = old.bonus /\ P'[p].tv = old.tv ]_vars
 \* a new game (and a player joining) starts from the configured initial values; nothing survives a game
-FreshGame == /\ [][ act'.op = "newgame" => P' = [p \in Players |-> IF p = 1 THEN InitP ELSE NoP] /\ bound' = NoBound ]_vars
-             /\ [][ (act'.op = "addplayer" /\ np' # np) => P'[np'] = InitP ]_vars
+FreshGame == /\ [][ act'.op = "newgame" => P' = [p \in Players |-> IF p = 1 THEN JoinP(1) ELSE NoP] /\ bound' = NoBound ]_vars
+             /\ [][ (act'.op = "addplayer" /\ np' # np) => np' = np + 1 /\ P'[np'] = JoinP(np') ]_vars
+             /\ [][ (act'.op = "addburst" /\ np' # np) => np' = np + act'.k /\ \A p \in (np + 1)..np' : P'[p] = JoinP(p) ]_vars
+\* every player has a number of his own: the players of a game are numbered 1..np in the order in which they joined,
+\* however close together their add requests were made
+NumbersDistinct == /\ \A p, q \in 1..np : p # q => P[p].num # P[q].num
+                   /\ \A p \in Players : P[p].num = (IF p <= np THEN p ELSE 0)
+\* ... and a number is for the whole game
+NumbersKept == [][ \A p \in Players : (P[p].ex /\ ph' # "idle") => P'[p].num = P[p].num ]_vars
 NothingSurvives == ph = "idle" => \A p \in Players : P[p] = NoP
 \* each change of a player variable posts exactly one event with value, prev_value, change = value - prev_value, player
-VarEvent == [][ act'.op \notin {"newgame", "addplayer"} /\ ph' # "idle" =>
+VarEvent == [][ act'.op \notin {"newgame", "addplayer", "addburst"} /\ ph' # "idle" =>
                 /\ \A p \in Players, var \in IntVars : (P[p].ex /\ P'[p].ex /\ Val(P'[p], var) # Val(P[p], var)) =>
                       Cardinality({x \in evs' : x[1] = var /\ x[5] = p}) = 1
                 /\ \A x \in evs' : /\ x[4] = x[2] - x[3] /\ x[4] # 0 /\ x[5] \in 1..np'
